@@ -3,64 +3,14 @@
 package naga
 
 import (
-	"github.com/gogpu/naga/internal/zzclike"
 	"github.com/gogpu/naga/internal/zztpl"
 	zz "github.com/gogpu/naga/internal/zzverif"
-	"github.com/gogpu/naga/msl"
 )
 
 // Translation validation of the MSL back end: the real Parse -> LowerWithSource -> Validate
 // -> msl.Compile pipeline runs on a template, the emitted MSL text is parsed and executed by
 // the reference evaluator (internal/zzclike, MSL dialect) on SYMBOLIC buffer contents, and
 // the final buffer is compared with the WGSL meaning of the template.
-
-func zzMSLOptions() msl.Options {
-	o := msl.DefaultOptions()
-	switch zz.Choice("options", 3) {
-	case 1:
-		o.LangVersion = msl.Version3_0
-		o.ForceLoopBounding = false
-	case 2:
-		o.LangVersion = msl.Version1_2
-	}
-	return o
-}
-
-func zzCompileAndRunMSL(src string, in []uint32, wid [3]uint32, garbage []uint32) ([]uint32, bool) {
-	ast, err := Parse(src)
-	zz.Assert(err == nil, "template does not parse: "+src)
-	if err != nil {
-		return nil, false
-	}
-	mod, err := LowerWithSource(ast, src)
-	zz.Assert(err == nil, "template does not lower: "+src)
-	if err != nil {
-		return nil, false
-	}
-	verrs, err := Validate(mod)
-	zz.Assert(err == nil && len(verrs) == 0, "template rejected by the validator: "+src)
-	text, info, err := msl.Compile(mod, zzMSLOptions())
-	zz.Assert(err == nil, "MSL backend rejected the template: "+src)
-	if err != nil {
-		return nil, false
-	}
-	entry := "main_"
-	if n, ok := info.EntryPointNames["main"]; ok && n != "" {
-		entry = n
-	}
-	prog, perr := zzclike.Parse(text, zzclike.MSL)
-	zz.Assert(perr == "", "emitted MSL is outside the reference grammar: "+perr)
-	if perr != "" {
-		return nil, false
-	}
-	prog.WorkgroupID, prog.WorkgroupSize, prog.Garbage = wid, [3]uint32{1, 1, 1}, garbage
-	out, rerr := prog.Run(entry, in)
-	zz.Assert(rerr == "", "emitted MSL cannot be executed by the reference evaluator: "+rerr)
-	if rerr != "" {
-		return nil, false
-	}
-	return out, true
-}
 
 func zzRunTemplateMSL(t zzTemplate) {
 	src := zzTemplateSource(t)
